@@ -873,7 +873,10 @@ def pinned_cases(base, linebuf):
     for total in (PATHBUF, PATHBUF + 1):
         name = long_rel(total - 2)
         ct = "a1\n#include %s\na2\n" % name
-        add("longname:bare-too-long:%d" % total, {"t/A": (True, ct)}, [("f", "t/A")], ["^t/A"], stream="broken", fs={"t/A": (True, ct)})
+        # (a readable decoy sits at DIR/NAME cut to PATHBUF-1 bytes: a lookup that lets snprintf truncate finds it)
+        cut = ("t/" + name)[:PATHBUF - 1]
+        add("longname:bare-too-long:%d" % total, {"t/A": (True, ct), cut: (True, "cut-bare\n")}, [("f", "t/A")], ["^t/A"],
+            stream="broken", fs={"t/A": (True, ct), cut: (True, "cut-bare\n")})
     # the streams read_wcoll opens ITSELF (one per ^file / -x ^file / WCOLL): many file sources on one command line
     tf = {"t/A": (True, "a1\n"), "t/B": (True, "b1\n")}
     for kfiles in (20, 60):
